@@ -4,6 +4,7 @@ CONSTANTS
   Dpbs = {16, 32}
   ResizeSet = {1, 2, 3, 4, 8, 10, 26, 28, 50, 60}
   Geos <- OneGeo
+  GdOnly = FALSE
   MaxSteps = 2
   DevTuneMasterOnly = FALSE
   DevFsckIgnoresFeatDiff = FALSE
